@@ -3,7 +3,7 @@ Spec: Grating.tla (resolution tree over the 128 presence patterns, Bragg tanh la
 import random, math, warnings
 import numpy as np
 from scipy.constants import c as C0
-from ..core import deadline, import_repo, fresh_repo
+from ..core import deadline, import_repo, fresh_repo, protect
 
 LEVEL = "exploration"
 
@@ -112,7 +112,7 @@ def run(ctx):
         npol = 1 + it % 2
         rs = np.random.RandomState(100 + it)
         f = rs.randn(npol, n) + 1j * rs.randn(npol, n)
-        x = optical_signal(f if npol == 2 else f[0])
+        x = protect(optical_signal(f if npol == 2 else f[0]))
         apo = rnd.choice(["uniform", "rcos", "gaussian", "parabolic", tri, quad])
         kLv, vdn, F_ = rnd.uniform(0.1, 8), 10 ** rnd.uniform(-5, -3), rnd.choice([0, rnd.uniform(-20, 20)])
         det = rnd.uniform(-0.2, 0.2) * fs
